@@ -14,6 +14,12 @@ CHECKS = {
          "Seeded histories of clone/move/embed/extract/drop/drop-carrier over <=6 channels run on real threads and sim-processes under a seeded scheduler; every 'disconnected', 'empty' and blocked-at-quiescence verdict of the observers is judged against a handle-lineage model that uses only certain (invoke/return-ordered) facts. Sampling, not proof.", "5/C03"),
  "C09": ("exploration", "deterministic simulation: seeded schedule search with receiver drop / process crash / in-transit destruction placed at every packet boundary; quiescence (hang) detection",
          "A stream of sends races with the receiver being dropped, its sim-process crashing (optionally at the k-th system call of a receive), or being destroyed/unpacked while in transit; oracle: no Ok after the receiver certainly ceased to exist, no sender blocked at quiescence, no SIGPIPE, all sends Ok and delivered for a receiver in transit. Sampling, not proof.", "5/C09"),
+ "C10": ("exploration", "deterministic simulation: virtual discrete-event clock + seeded schedules; per-call timing/result oracle",
+         "Receiver scripts mixing recv/try_recv/try_recv_timeout(d) run against senders that sleep in virtual time, send and drop, so arrivals and drops land before, inside and after each wait; every call is judged for result, for elapsed virtual time (try_recv: none; timeout: >= d to the ms when empty, no time after the event otherwise) and for not poisoning later blocking receives. Sampling, not proof.", "5/C10"),
+ "C12": ("fault_enumeration", "deterministic simulation with crash injection enumerated over every system-call boundary of the send, crossed with seeded schedules",
+         "The victim sim-process is crashed before its k-th system call of the send for every k (and after it, and clean exit) for 1..6-packet messages with/without attachments, with 0/1 surviving sender in another sim-process, observed by recv, try_recv, receiver set and router; descriptors of the dead process are reaped one per scheduling step. Exhaustive over crash points within these bounds; schedules are sampled.", "5/C12"),
+ "C13": ("fault_enumeration", "deterministic simulation with ENOBUFS injected at every subset of the first 10 transmission attempts (2^10 patterns) per shape",
+         "Every ENOBUFS pattern over the first 10 transmission attempts of one send x 5 shapes x attachments x 2 buffer sizes (20480 cases, the complete space stated in the property); oracle: Ok => exact message with probed attachments, Err => nothing delivered, follow-on message intact, no retry packet larger than the receiver's buffer, no livelock. Exhaustive over the fault patterns; receiver/sender interleavings are sampled.", "5/C13"),
 }
 PENDING = "check not built yet (work in progress in this session; will be claimed once its simulation scenario exists)"
 
